@@ -46,6 +46,22 @@ pub fn commit_ops(i: usize) -> Vec<OpSpec> {
 /// that changes nothing and is committed.
 pub fn build_base(path: &str, pagesize: u64, commits_code: usize) -> Result<Base, String> {
     let cfg = Cfg { pagesize, num_pages: 32, ..Cfg::default() };
+    // the same thread has just used another database with a much larger page size (an application
+    // with two stores): nothing of that may leak into the headers written below
+    {
+        let side = format!("{}.side", path);
+        let _ = std::fs::remove_file(&side);
+        let r = real::guarded(|| -> Result<(), String> {
+            let db = Cfg { pagesize: 65536, num_pages: 4, ..Cfg::default() }.open(&side).map_err(|e| format!("{:?}", e))?;
+            let tx = db.tx(true).map_err(|e| format!("{:?}", e))?;
+            tx.create_bucket("side").map_err(|e| format!("{:?}", e))?.put("k", "v").map_err(|e| format!("{:?}", e))?;
+            tx.commit().map_err(|e| format!("{:?}", e))
+        });
+        let _ = std::fs::remove_file(&side);
+        if !matches!(r, Ok(Ok(()))) {
+            return Err(format!("side database with page size 65536 could not be used: {:?}", r));
+        }
+    }
     let mut r = Runner::new(path, cfg.clone())?;
     let mut states = vec![BucketM::default()];
     let noop_tail = (1000..2000).contains(&commits_code);
